@@ -10,7 +10,7 @@
     carry the numbers n, n+1, ... and each holds exactly one attempt per representation in
     representation order.  The availability function [sc_avail cf] is a parameter of the
     configuration; [mk_scfg] instantiates it with the code's float64 computation. *)
-From Verif Require Import GoSem Timeline Ingest IngestProofs IngestHandoverProofs IngestLiveEdge.
+From Verif Require Import GoSem Timeline Ingest IngestProofs IngestHandoverProofs IngestLiveEdge IngestTimeMode.
 
 (** ** Order: init first, then consecutive numbers, one attempt per representation per group —
     for every event sequence, every clock, every receiver behaviour, every availability function. *)
@@ -77,11 +77,15 @@ Theorem C16_duration_catchup_refuted :
    map (map (fun m => (mp_nr m, mp_last m))) gs = [[(5, false)]; [(6, false)]; [(7, false)]; [(8, false)]] /\ lastToSend st = 6).
 Proof. exact catchup_witness. Qed.
 
-(** Completeness ($Number$ addressing): if the availability function never answers before the
-    segment is available (and at most 1 s late), every attempt of every group is accepted by
-    writeSegment, i.e. every step delivers to every representation.  [_partial]: the same
-    statement for $Time$ addressing (where the URL time comes from generateTimelineEntries at
-    nowMS+50) is only checked by the correspondence. *)
+(** Completeness: if the availability function never answers before the segment is available (and
+    at most 1 s late), every attempt of every group is accepted by the segment server model, i.e.
+    every step delivers to every representation — under $Number$ addressing (first theorem) and
+    under $Time$ addressing (second theorem: the URL time is lastTime() of the timeline generated at
+    nowMS+50 over a 100 ms window, shown to be the start of the session's next number when segments
+    are longer than 1.05 s).  [_partial]: the hypothesis [avail_on_time] about the code's float64
+    arithmetic is not discharged in general (no float error analysis); it is proved for the exact
+    ceiling ([C16_exact_avail_on_time]), checked exhaustively on the bundled grids up to a bound
+    ([C16_ceil_on_time_bounded]) and sampled by the correspondence on every run. *)
 Theorem C16_complete_partial : forall cf atoMS,
   sc_test cf = true -> sc_timeline cf = false ->
   aligned cf -> avail_on_time cf -> startNr (sc_cfg cf) = 0 -> 0 <= tsbdS (sc_cfg cf) ->
@@ -91,6 +95,16 @@ Theorem C16_complete_partial : forall cf atoMS,
     run cf st evs = (gs, st') -> all_ok gs.
 Proof. exact complete_number. Qed.
 Print Assumptions C16_complete_partial.
+
+Theorem C16_complete_time_partial : forall cf atoMS,
+  ato (sc_cfg cf) = Some atoMS -> atoMSint (sc_cfg cf) - atoMS = 0 -> 0 <= atoMS ->
+  sc_test cf = true -> sc_timeline cf = true ->
+  aligned cf -> long_segments cf -> avail_on_time cf -> avail_after_start cf -> 0 <= tsbdS (sc_cfg cf) ->
+  forall evs st gs st',
+    consistent cf st -> 0 <= nextNr st -> nextNr st + lenZ evs < two32 ->
+    run cf st evs = (gs, st') -> all_ok gs.
+Proof. exact complete_time. Qed.
+Print Assumptions C16_complete_time_partial.
 
 (** The hypothesis [avail_on_time] holds for the exact ceiling of the availability instant
     (what math.Ceil computes when the float64 error does not reach the next integer). *)
